@@ -155,6 +155,17 @@ CHECKS = {
         note="Expiry is judged at housekeeping passes (the mechanism the property anchors); schedule part runs on a transport-less daemon shell.",
         design_ref="DESIGN.md section 3 C10",
     ),
+    "C20": dict(
+        engine="S+N",
+        technique="exhaustive enumeration of HTTP requests x gateway configurations (and two-request histories) through the real WSGI app against a reference function, with traffic counters",
+        text="The full product request method x ~30 paths x 10 query strings x key header {absent, wrong, right} x options header x 6 configurations (key unset/set x expose "
+             "pattern default/anchored/empty) is given to the real pyro_app standing in front of a real name server and three real objects on the in-memory transport. "
+             "A reference function written from the statement gives the allowed status codes, whether any Pyro traffic may occur and which invocation (object, member, "
+             "parameters) must be logged exactly once; connection/byte/lookup counters and per-object invocation logs decide 'without any Pyro traffic' and 'exactly "
+             "the named member once'. Two-request histories check that no request changes the behaviour of the next one.",
+        note="The app is driven with WSGI environ dicts (no HTTP server); locating the name server is replaced by a factory for a proxy to the harness' name server.",
+        design_ref="DESIGN.md section 3 C20",
+    ),
 }
 
 NOT_YET = {}
